@@ -50,16 +50,27 @@ int64_t CDNS::CdnsDecoder::read_negative()
                                     std::to_string(item_length)).c_str());
     }
 
-    return -1 - read_int(item_length);
+    // Values below the range of int64_t are reported as the smallest representable value
+    uint64_t value = read_int(item_length);
+    if (value > static_cast<uint64_t>(INT64_MAX))
+        return INT64_MIN;
+
+    return -1 - static_cast<int64_t>(value);
 }
 
 int64_t CDNS::CdnsDecoder::read_integer()
 {
     CborType peek = peek_type();
     switch (peek) {
-        case CborType::UNSIGNED:
-            return read_unsigned();
+        case CborType::UNSIGNED: {
+            // Values above the range of int64_t are reported as the largest representable value
+            uint64_t value = read_unsigned();
+            if (value > static_cast<uint64_t>(INT64_MAX))
+                return INT64_MAX;
+
+            return value;
             break;
+        }
         case CborType::NEGATIVE:
             return read_negative();
             break;
